@@ -1,12 +1,15 @@
 from flamapy.core.transformations import ModelToText
 
-from flamapy.core.models.ast import Node
+from flamapy.core.models.ast import Node, ASTOperation
 from flamapy.metamodels.fm_metamodel.models import (
     Feature,
     FeatureModel,
     Relation,
     Attribute
 )
+
+
+AFM_OPERATORS = {ASTOperation.EQUIVALENCE: "IFF"}  # the other operators are spelled as their names
 
 
 class AFMWriter(ModelToText):
@@ -121,20 +124,17 @@ class AFMWriter(ModelToText):
 
         return result
 
-    def recursive_constraint_read(self, node: Node) -> str:
+    def recursive_constraint_read(self, node: Node, top: bool = True) -> str:
+        """Expression text of a constraint; sub-expressions are parenthesised so that the text denotes
+        the same tree whatever the precedences of the grammar are."""
+        if not node.is_op():
+            return str(node.data)
 
-        data = node.data
-        if node.is_op():
-            data = data.value.upper()
-
-        if node.left and node.right:
-            result = self.recursive_constraint_read(
-                node.left) + data + self.recursive_constraint_read(node.right)
-        elif not node.left and node.right:
-            result = data + self.recursive_constraint_read(node.right)
-        elif node.left and not node.right:
-            result = self.recursive_constraint_read(node.left) + node.data
+        if node.data == ASTOperation.NOT:
+            operand = node.left if node.left is not None else node.right
+            result = "NOT " + self.recursive_constraint_read(operand, False)
         else:
-            result = " " + data + " "
-
-        return result
+            operator = AFM_OPERATORS.get(node.data, node.data.value.upper())
+            result = (self.recursive_constraint_read(node.left, False) + " " + operator + " "
+                      + self.recursive_constraint_read(node.right, False))
+        return result if top else "(" + result + ")"
